@@ -87,18 +87,20 @@ class Ev:
                     elif self.n_con >= 2:
                         vals[i, self.n_obj], vals[i, self.n_obj + 1] = -np.inf, np.inf
         true_vals = vals.copy()
+        edge = abs(self.garbage) > 1e305        # garbage at the edge of the number range: alternating in sign from row to row, still finite
+        alt = np.where(np.arange(n) % 2 == 0, 0.9, -0.8) * self.garbage
         for j in range(self.n_obj):
             if rec["ao"] is not None:
                 sel = ~rec["ao"][j, rec["realizations"]]
-                vals[sel, j] = self.garbage * (1 + j) + np.arange(n)[sel]
+                vals[sel, j] = alt[sel] if edge else self.garbage * (1 + j) + np.arange(n)[sel]
         for j in range(self.n_con):
             if rec["ac"] is not None:
                 sel = ~rec["ac"][j, rec["realizations"]]
-                vals[sel, self.n_obj + j] = -self.garbage * (1 + j) - np.arange(n)[sel]
+                vals[sel, self.n_obj + j] = -alt[sel] if edge else -self.garbage * (1 + j) - np.arange(n)[sel]
         if rec["active"] is not None and self.use_row_flag:
             # evaluators typically consult only the per-realization flag: rows flagged inactive get garbage in every column
             sel = ~rec["active"][rec["realizations"]]
-            vals[sel, :] = self.garbage * 3.0 + np.arange(n)[sel, None]
+            vals[sel, :] = alt[sel, None] if edge else self.garbage * 3.0 + np.arange(n)[sel, None]
         rec["true"] = true_vals
         if self.personality in ("buffer", "buffer_ro"):
             bo = self.buffers.setdefault(("o", n), np.empty((n, self.n_obj)))
@@ -302,8 +304,9 @@ def run_case(case, obs):
         case["seq"] = seq
     seed_seq = int(rng.integers(0, 2**31))
     runs = []
-    # the second filling: of ordinary size, or large enough to dwarf (1e30) or to overflow when squared (1e200, 3e299) - still finite
-    g2 = float(rng.choice([-31337.5, -31337.5, 1e30, -1e200, 3e299]))
+    # the second filling: of ordinary size, or large enough to dwarf (1e30), to overflow when squared (1e200, 3e299) or when two
+    # of them are subtracted (+-0.9 / 0.8 of the largest number, alternating) - still finite
+    g2 = float(rng.choice([-31337.5, -31337.5, 1e30, -1e200, 3e299, float(np.finfo(np.float64).max)]))
     if abs(g2) > 1e6:
         obs.count("cases_with_huge_finite_garbage")
     for garbage in (777.0, g2):
